@@ -70,6 +70,8 @@ func c05Cases(cfg vlib.Cfg) []*c05Spec {
 			sp = c05SvcBackoffCase(r)
 		case i%40 == 31 && i < 240:
 			sp = c05StopPanicCase(r)
+		case i%40 == 1 && i < 240:
+			sp = c05FailureFnCase(r)
 		case i%40 == 9:
 			sp = c05StragglerCase(r)
 		case i%40 == 19 && i < 320:
@@ -401,6 +403,10 @@ func c05QuickStopCase(r *vlib.Rand) *c05Spec {
 			it.FromStart = fromStartOK(it.Kind)
 			ms.Items = append(ms.Items, it)
 		}
+		if r.Chance(1, 2) {
+			// a task created and queued by the prep routine (never runs on the unchanged code)
+			ms.Items = append(ms.Items, &c05Item{ID: name + "-pt", Kind: vlib.Pick(r, kTaskQ, kTaskP, kTaskA), FromPrep: true, Wait: "latch", Latch: "stopfn.begin|" + name, LingerMs: 1, Cycle: 1})
+		}
 		sp.Mods = append(sp.Mods, ms)
 	}
 	return sp
@@ -514,6 +520,12 @@ func c05EarlyContextCase(r *vlib.Rand) *c05Spec {
 			wait(it)
 			ms.Items = append(ms.Items, it)
 		}
+	}
+	if withPrep {
+		// a task created and queued by the prep routine (on the unchanged code its context
+		// derives from the module's initial context, which the start cancels: it never runs;
+		// if it does run, it is work of the module like any other and P1/P2 apply)
+		ms.Items = append(ms.Items, &c05Item{ID: "ma-pt", Kind: vlib.Pick(r, kTaskQ, kTaskP, kTaskA), Settled: false, FromPrep: true, Wait: "latch", Latch: "stopfn.begin|ma", LingerMs: 1, Cycle: 1})
 	}
 	if withPrep {
 		sp.Class += "+prep"
@@ -773,5 +785,23 @@ func c05StopPanicCase(r *vlib.Rand) *c05Spec {
 	if r.Chance(1, 3) {
 		sp.Mgmt, sp.StopVia, sp.Disable = true, "manage", []string{"ma"}
 	}
+	return sp
+}
+
+// c05FailureFnCase: a failure-update notify function (SetFailureUpdateNotifyFunc) is
+// registered and ma has a failure status set; from the moment the stop is triggered the
+// function blocks until the harness releases it, which it only does after Shutdown has
+// returned (or was found stuck). Reporting failure states is not work of the module's
+// start cycle: the stop has to complete without it.
+func c05FailureFnCase(r *vlib.Rand) *c05Spec {
+	sp := &c05Spec{Class: "failurefn", Limit: 64, StopTimeoutMs: c05StopTimeoutMs, StopVia: "shutdown", FailureFn: true}
+	dep := &c05Mod{Name: "m0", StopDelayMs: 0}
+	dep.Items = append(dep.Items, &c05Item{ID: "m0-w", Kind: kWorker, Settled: true, Wait: "ctx", Cycle: 1})
+	ms := &c05Mod{Name: "ma", Deps: []string{"m0"}, StopDelayMs: vlib.Pick(r, 0, 1, 5)}
+	n := r.Range(1, 3)
+	for j := 0; j < n; j++ {
+		ms.Items = append(ms.Items, &c05Item{ID: fmt.Sprintf("ma-i%d", j), Kind: vlib.Pick(r, kWorker, kWorkerRun, kSvc, "mt_start_med"), Settled: true, Wait: "ctx", LingerMs: vlib.Pick(r, 0, 1, 5), Cycle: 1})
+	}
+	sp.Mods = []*c05Mod{ms, dep}
 	return sp
 }
